@@ -137,8 +137,10 @@ pub fn monogamous(p: &Plain) -> bool {
 pub fn gen_dense(r: &mut Rng, big: bool) -> Plain {
     // unusually large instances at a low rate
     let huge = r.chance(1, if big { 20 } else { 150 });
-    let n = if huge { r.range(8, 40) } else { r.range(1, if big { 7 } else { 5 }) };
-    let m = if huge { r.range(6, 24) } else { r.range(0, if big { 7 } else { 5 }) };
+    // a quarter of those go past the usual power-of-two thresholds
+    let giant = huge && r.chance(1, 4);
+    let n = if giant { *r.pick(&[70, 140, 300]) } else if huge { r.range(8, 40) } else { r.range(1, if big { 7 } else { 5 }) };
+    let m = if giant { *r.pick(&[40, 70, 140, 280]) } else if huge { r.range(6, 24) } else { r.range(0, if big { 7 } else { 5 }) };
     let max_ar = r.range(1, if big || huge { 6 } else { 4 });
     let labels = r.range(1, 3);
     let w: Vec<L> = (0..n).map(|_| r.below(labels) as L).collect();
@@ -171,7 +173,8 @@ pub fn gen_dense(r: &mut Rng, big: bool) -> Plain {
 /// random renumbering of nodes and operations
 pub fn gen_layered(r: &mut Rng, big: bool) -> Plain {
     let huge = r.chance(1, if big { 20 } else { 150 });
-    let m = if huge { r.range(8, 30) } else { r.range(0, if big { 8 } else { 5 }) };
+    let giant = huge && r.chance(1, 4);
+    let m = if giant { *r.pick(&[70, 140, 280]) } else if huge { r.range(8, 30) } else { r.range(0, if big { 8 } else { 5 }) };
     let mut w: Vec<L> = vec![];
     let mut used_as_source: Vec<bool> = vec![];
     let mut e = vec![];
